@@ -18,7 +18,9 @@ GEN_FILES = ["gen/C16Table.v"]
 SHARD = 250
 RULE = ("pairs/triples of Table/Schema/Database/AliasedQuery construction programs: a random object, then near copies "
         "(same identity through another construction route: str / tuple / list / Schema object / attribute access; or "
-        "exactly one of name, a schema level, a schema class, alias, for_ / for_portion criterion, query body changed), "
+        "exactly one of name, a schema level, a schema class, alias, for_ / for_portion criterion, query body changed); "
+        "intermediate objects are observed (hash, ==, str, set membership) at random construction steps before "
+        "as_/for_/for_portion/attribute access, and every object is compared with a twin built without that history; "
         "plus independent and cross-class objects and a malformed stream (empty schema tuple/list, second temporal "
         "clause); a case is non-trivial when two distinct objects of it compare equal or differ in exactly one "
         "attribute; distinct by the JSON of the programs")
@@ -82,9 +84,38 @@ def body_text(i):
 # =================================================================================================
 # building the objects of a case on pypika
 # =================================================================================================
+def _observe(x):
+    """use the object the way statements do (hash, ==, rendering, set membership) and go on deriving from it"""
+    try:
+        hash(x)
+        x in {x}                                    # noqa
+    except TypeError:
+        pass
+    x == x                                          # noqa
+    x != x                                          # noqa
+    str(x)
+    return x
+
+
+def strip_obs(p):
+    """the same construction program without the intermediate observations"""
+    if isinstance(p, dict):
+        q = {k: strip_obs(v) for k, v in p.items()}
+        if "ops" in q:
+            q["ops"] = [o for o in q["ops"] if o[0] != "obs"]
+        return q
+    if isinstance(p, list):
+        if len(p) == 2 and p[0] == "obs" and isinstance(p[1], list):
+            return strip_obs(p[1])
+        return [strip_obs(x) for x in p]
+    return p
+
+
 def build_sprog(p):
     from pypika import Schema, Database
     k = p[0]
+    if k == "obs":
+        return _observe(build_sprog(p[1]))
     if k == "new":
         return (Database if p[1] else Schema)(p[2])
     if k == "sub":
@@ -118,7 +149,9 @@ def build_obj(p):
     else:
         raise ValueError(r[0])
     for op in p["ops"]:
-        if op[0] == "as":
+        if op[0] == "obs":
+            t = _observe(t)
+        elif op[0] == "as":
             t = t.as_(op[1])
         elif op[0] == "for":
             t = t.for_(_for_pool()[op[1]])
@@ -175,11 +208,12 @@ def run_impl(case):
             hashable.append("!" + type(e).__name__)
     out["hashable"] = hashable
     out["heq"] = [[(hs[i] == hs[j]) if (i in hs and j in hs) else None for j in range(n)] for i in range(n)]
-    # the same expression evaluated a second time: a distinct object with the same identity
+    # the same expression evaluated a second time, WITHOUT the intermediate observations: a distinct object with
+    # the same identity and no history
     tw = {}
     for i in ok:
         try:
-            tw[i] = build_obj(progs[i])
+            tw[i] = build_obj(strip_obs(progs[i]))
         except Exception:  # noqa
             pass
     out["twin_eq"] = [_rb(lambda: objs[i] == tw[i]) if i in tw else None for i in range(n)]
@@ -203,6 +237,8 @@ def run_impl(case):
 # model side
 # =================================================================================================
 def sprog_coq(p):
+    if p[0] == "obs":
+        return "(PObs %s)" % sprog_coq(p[1])
     if p[0] == "new":
         return "(PNew %s %s)" % (B(p[1]), S(p[2]))
     if p[0] == "sub":
@@ -223,6 +259,8 @@ def route_coq(r):
 
 
 def op_coq(op):
+    if op[0] == "obs":
+        return "OpObs"
     if op[0] == "as":
         return "(OpAs %s)" % S(op[1])
     if op[0] == "for":
@@ -419,6 +457,8 @@ def extract():
 # =================================================================================================
 def _schain(p):
     """[(name, is_database)] leaf first, or raise"""
+    if p[0] == "obs":
+        return _schain(p[1])
     if p[0] == "new":
         return [(p[2], bool(p[1]))]
     if p[0] == "sub":
@@ -430,10 +470,12 @@ def spec_of(p):
     """identity attributes the program asks for (independent of pypika and of the Coq model)"""
     if p["k"] == "S":
         ch = _schain(p["prog"])
-        return {"fam": "S", "kind": "Database" if ch[0][1] else "Schema", "schema": [n for n, _ in ch]}
+        return {"fam": "S", "kind": "Database" if ch[0][1] else "Schema", "schema": [n for n, _ in ch],
+                "dbs": [d for _, d in ch]}
     if p["k"] == "A":
         return {"fam": "A", "kind": "AliasedQuery", "name": p["name"], "body": p["body"]}
     r = p["route"]
+    dbs = None
     if r[0] == "none":
         ch = None
     elif r[0] == "str":
@@ -442,15 +484,19 @@ def spec_of(p):
         ch = list(reversed(r[1]))
     else:
         ch = [n for n, _ in _schain(r[1])]
+        dbs = [d for _, d in _schain(r[1])]
+    if ch is not None and dbs is None:
+        dbs = [False] * len(ch)
     alias, f, po = p["alias"], None, None
     for op in p["ops"]:
         if op[0] == "as":
             alias = op[1]
         elif op[0] == "for":
             f = op[1]
-        else:
+        elif op[0] == "portion":
             po = op[1]
-    return {"fam": "T", "kind": "Table", "name": p["name"], "schema": ch, "alias": alias, "for_": f, "for_portion": po}
+    return {"fam": "T", "kind": "Table", "name": p["name"], "schema": ch, "alias": alias, "for_": f, "for_portion": po,
+            "dbs": dbs}
 
 
 IDENTITY_ATTRS = {"T": ["name", "schema", "alias", "for_", "for_portion"], "S": ["schema"], "A": ["name"]}
@@ -485,11 +531,11 @@ def oracle(case, outcome):
         if eq[i][i] is not True:
             add(i, "-", "reflexive", "x == x is %r for %s" % (eq[i][i], desc(i)))
         elif outcome["twin_eq"][i] is not True:
-            add(i, "-", "reflexive", "the expression %s evaluated twice gives two objects with == %r" % (desc(i), outcome["twin_eq"][i]))
+            add(i, "-", "reflexive", "%s == the same expression evaluated again without the intermediate observations is %r" % (desc(i), outcome["twin_eq"][i]))
         elif outcome["twin_ne"][i] is not False:
             add(i, "-", "ne-is-not-eq", "the expression %s evaluated twice: == is True but != is %r" % (desc(i), outcome["twin_ne"][i]))
         elif hashable[i] is True and outcome["twin_heq"][i] is not True:
-            add(i, "-", "equal-implies-equal-hash", "the expression %s evaluated twice: equal objects, different hashes" % desc(i))
+            add(i, "-", "equal-implies-equal-hash", "%s and the same expression evaluated again without the intermediate observations: equal objects, different hashes" % desc(i))
     for i in ok:
         for j in ok:
             e, d = eq[i][j], ne[i][j]
@@ -503,6 +549,11 @@ def oracle(case, outcome):
             if i < j:
                 da = diff_attrs(specs[i], specs[j])
                 first = (da[0] if da else "-") if da is not None else "class"
+                same = da == [] and (specs[i]["fam"] != "A" or specs[i]["body"] == specs[j]["body"])
+                if same and e is not True:
+                    why = "class" if specs[i]["kind"] != specs[j]["kind"] or specs[i].get("dbs") != specs[j].get("dbs") else "route"
+                    add(i, why, "same-identity-equal", "%s != %s although name, schema chain, alias and temporal clause "
+                        "are the same (construction %s differs)" % (desc(i), desc(j), why))
                 if da and e is True:
                     add(i, first, "distinguishes", "%s == %s although they differ in %s" % (desc(i), desc(j), ", ".join(da)))
                 if e is True and hashable[i] is True and hashable[j] is True and heq[i][j] is not True:
@@ -641,16 +692,23 @@ def mutate(rng, sp):
     return sp
 
 
+P_OBS = 0.25      # probability of an observation step after each construction step
+
+
 def _sprog(rng, chain):
-    """a Schema-object expression for a root-first chain"""
+    """a Schema-object expression for a root-first chain (intermediate objects are sometimes observed first)"""
     p = ["new", chain[0][1], chain[0][0]]
     prev_db = chain[0][1]
     for nme, db in chain[1:]:
+        if rng.random() < P_OBS:
+            p = ["obs", p]
         if prev_db and not db and rng.random() < 0.6:
             p = ["attr", p, nme]                   # Database(...).name
         else:
             p = ["sub", db, nme, p]
         prev_db = db
+    if rng.random() < P_OBS:
+        p = ["obs", p]
     return p
 
 
@@ -697,7 +755,15 @@ def realize(rng, sp, bad=None):
             ops.append(rng.choice([["for", rng.randrange(N_FOR)], ["portion", rng.randrange(N_PORTION)]]))
     elif sp["alias"] is not None and not alias_ctor and rng.random() < 0.15:
         ops.insert(0, ["as", rng.choice(ALIASES)])       # an earlier as_() is overwritten
-    return {"k": "T", "name": sp["name"], "route": route, "alias": sp["alias"] if alias_ctor else None, "ops": ops}
+    # observations of the intermediate objects: before the first builder call, between calls, after the last
+    with_obs = []
+    for o in ops:
+        if rng.random() < P_OBS:
+            with_obs.append(["obs"])
+        with_obs.append(o)
+    if ops and rng.random() < P_OBS:
+        with_obs.append(["obs"])
+    return {"k": "T", "name": sp["name"], "route": route, "alias": sp["alias"] if alias_ctor else None, "ops": with_obs}
 
 
 def gen_case(rng):
@@ -772,6 +838,12 @@ def _builtin_corpus():
         {"objs": [_t("t", ["tuple", []]), _t("t", ["list", []]), _t("t")]},
         {"objs": [_t("t", ops=[["for", 0], ["for", 1]]), _t("t", ops=[["portion", 0], ["for", 1]]), _t("t", ops=[["for", 0], ["portion", 1]])]},
         {"objs": [_t("t", ["tuple", ["a", "b", "c"]]), _t("t", ["tuple", ["a", "x", "c"]]), _t("t", ["tuple", ["b", "c"]])]},
+        # objects with a history: observed (hashed, compared, rendered) before as_ / for_ / attribute access
+        {"objs": [_t("a", ops=[["obs"], ["as", "x"]]), _t("a", alias="x"), _t("a", ops=[["obs"], ["for", 0], ["obs"], ["as", "x"]])]},
+        {"objs": [_t("abc", ["str", "s"], ops=[["obs"], ["as", "x"]]), _t("abc", ["str", "s"], alias="x"), _t("abc", ["str", "s"])]},
+        {"objs": [_t("t", ["attr", ["obs", ["attr", ["obs", ["new", True, "d"]], "s"]]], ops=[["obs"], ["portion", 0]]),
+                  _t("t", ["tuple", ["d", "s"]], ops=[["portion", 0]]),
+                  {"k": "S", "prog": ["obs", ["sub", False, "s", ["obs", ["new", False, "d"]]]]}]},
         # different identities, same rendered text (legitimate hash collisions, must stay unequal)
         {"objs": [_t("t", ["str", "a.b"]), _t("t", ["tuple", ["a", "b"]]), _t("b.t", ["str", "a"])]},
         {"objs": [_t("t", ["tuple", ["a", "b"]]), _t("t", ["str", 'a"."b']), _t('b"."t', ["str", "a"])]},
@@ -810,6 +882,8 @@ def histogram(cases):
                 inc("route=" + p["route"][0])
                 for op in p["ops"]:
                     inc("op=" + op[0])
+                if p != strip_obs(p):
+                    inc("table-with-history")
         try:
             specs = [spec_of(p) for p in c["objs"]]
             for i in range(len(specs)):
@@ -833,4 +907,14 @@ def targeted_search(rng, broken, mism_cases):
         for _ in range(400):
             a = gen_spec(rng, fam)
             out.append({"objs": [realize(rng, a), realize(rng, a), realize(rng, mutate(rng, a))]})
+    # the same chain with Schema / Database classes at every level, as schemas and as the schema of a table
+    for names in (["d"], ["d", "s"], ["d", "s", "r"]):
+        for flags in range(2 ** len(names)):
+            ch = [[n, bool(flags >> k & 1)] for k, n in enumerate(names)]
+            plain = [[n, False] for n in names]
+            out.append({"objs": [realize(rng, {"fam": "S", "chain": ch}), realize(rng, {"fam": "S", "chain": plain})]})
+            if not ch[-1][1]:
+                ta = {"fam": "T", "name": "t", "chain": ch, "alias": None, "temp": None}
+                tb = {"fam": "T", "name": "t", "chain": plain, "alias": None, "temp": None}
+                out.append({"objs": [realize(rng, ta), realize(rng, tb), realize(rng, ta)]})
     return out
